@@ -22,6 +22,10 @@ struct Script {
     // twin mode: program keyed by event id
     prog: Option<HashMap<u32, Vec<i64>>>,
     use_abs: bool,
+    // record mode (direction V): the handler draws its follow-ups at random and logs what it did
+    rec: Option<Rng>,
+    rec_budget: u32,
+    rec_log: Vec<Value>,
 }
 
 thread_local! {
@@ -59,6 +63,22 @@ impl Event<App> for Ev {
                 }
             };
             s.handled.push((id, tick));
+            if s.rec.is_some() {
+                let budget = s.rec_budget;
+                let rng = s.rec.as_mut().unwrap();
+                let n = if budget == 0 { 0 } else { rng.below(4) };
+                let mut reqs = Vec::new();
+                for _ in 0..n {
+                    let d = *rng.pick(&[0i64, 0, 1, 1, 2, 3, 5, -1]);
+                    if d == -1 && tick == 0 {
+                        continue;
+                    }
+                    reqs.push(d);
+                }
+                let used = reqs.iter().filter(|d| **d >= 0).count() as u32;
+                s.rec_budget = budget.saturating_sub(used);
+                return (reqs, tick, false);
+            }
             if let Some(prog) = &s.prog {
                 // uninterrupted twin: program keyed by event id
                 return match prog.get(&id) {
@@ -98,6 +118,9 @@ impl Event<App> for Ev {
             let s = s.borrow();
             (s.emb.clone().unwrap(), s.use_abs)
         });
+        let recording = SCRIPT.with(|s| s.borrow().rec.is_some());
+        let mut rec_ids: Vec<i64> = Vec::new();
+        let reqs_logged = reqs.clone();
         for d in reqs {
             if d >= 0 {
                 let nid = SCRIPT.with(|s| {
@@ -122,6 +145,7 @@ impl Event<App> for Ev {
                     SCRIPT.with(|s| s.borrow_mut().fail = Some(json!({"field": "scheduling at or after the current time panicked", "delay": d, "t": tick, "event": id})));
                     return;
                 }
+                rec_ids.push(nid as i64);
             } else {
                 // a request before the current simulated time must be rejected with a panic
                 let past = emb.map(tick - 1);
@@ -137,7 +161,11 @@ impl Event<App> for Ev {
                     SCRIPT.with(|s| s.borrow_mut().fail = Some(json!({"field": "rejected add_event changed the event set", "t": tick})));
                     return;
                 }
+                rec_ids.push(-1);
             }
+        }
+        if recording {
+            SCRIPT.with(|s| s.borrow_mut().rec_log.push(json!({"op": "handle", "id": id, "t": tick, "reqs": reqs_logged, "ids": rec_ids})));
         }
     }
 }
@@ -465,5 +493,108 @@ pub fn replay(args: &[String]) {
             }
         }
     });
+    s.print();
+}
+
+
+// ------------------------------------------------------------------ direction V
+fn rnd_limit(rng: &mut Rng, depth: u32) -> Value {
+    match if depth == 0 { rng.below(3) } else { rng.below(5) } {
+        0 => json!({"k": "none"}),
+        1 => json!({"k": "ec", "n": rng.below(60)}),
+        2 => json!({"k": "st", "t": rng.below(40)}),
+        3 => json!({"k": "and", "l": rnd_limit(rng, depth - 1), "r": rnd_limit(rng, depth - 1)}),
+        _ => json!({"k": "or", "l": rnd_limit(rng, depth - 1), "r": rnd_limit(rng, depth - 1)}),
+    }
+}
+
+/// `vh rt record --seed S --runs R --out F`: long random programs, random step schedules, external adds.
+pub fn record(args: &[String]) {
+    use std::io::Write;
+    let seed = arg_u64(args, "--seed", 1);
+    let runs = arg_u64(args, "--runs", 20);
+    let outp = arg_value(args, "--out").expect("--out");
+    let mut rng = Rng(seed.wrapping_mul(0xD1B5_4A32_D192_ED03) ^ 0x2e7);
+    let mut out = std::io::BufWriter::new(std::fs::File::create(&outp).unwrap());
+    let mut s = Summary::default();
+    for r in 0..runs {
+        watchdog::enter(|| json!({"rt_record_run": r, "seed": seed}).to_string());
+        let n = *rng.pick(&[1usize, 2, 3, 7, 32]);
+        let w = Duration::from_nanos(*rng.pick(&[1u64, 1_000, 2_500_000, 1_000_000_000]));
+        let kind = *rng.pick(&["w", "ns", "rand", "year", "wm1"]);
+        let emb = Emb::new(kind, n, w, 3000, seed ^ r);
+        let start = *rng.pick(&[0u64, 0, 3]);
+        let limit = if rng.chance(1, 2) { json!({"k": "none"}) } else { rnd_limit(&mut rng, 2) };
+        let cfgv = json!({"op": "cfg", "start": start, "limit": limit, "seed": true});
+        let mut lines: Vec<Value> = vec![cfgv.clone()];
+        SCRIPT.with(|sc| {
+            *sc.borrow_mut() = Script { emb: Some(emb.clone()), use_abs: rng.chance(1, 2), rec: Some(Rng(seed ^ (r << 8) ^ 0x77)), rec_budget: 60 + rng.below(120) as u32, nid: 1, ..Default::default() }
+        });
+        let res = catch_unwind(AssertUnwindSafe(|| {
+            let mut rt = builder_for(&cfgv, n, w, &emb, 0).build(App);
+            rt.add_event(Ev(0), st(emb.map(start)));
+            let mut ext = |rt: &mut Runtime<App>, rng: &mut Rng, lines: &mut Vec<Value>| {
+                let now = emb.inv(*rt.sim_time()).unwrap_or(0);
+                let t = (now + rng.below(5)).saturating_sub(rng.below(2));
+                let id = SCRIPT.with(|sc| sc.borrow().nid);
+                let ok = catch_unwind(AssertUnwindSafe(|| rt.add_event(Ev(id), st(emb.map(t))))).is_ok();
+                if ok {
+                    SCRIPT.with(|sc| sc.borrow_mut().nid += 1);
+                }
+                lines.push(json!({"op": "add_ext", "t": t, "res": if ok { "ok" } else { "panic" }, "id": if ok { id } else { 0 }, "remaining": rt.num_events_remaining()}));
+            };
+            for _ in 0..rng.below(3) {
+                ext(&mut rt, &mut rng, &mut lines);
+            }
+            rt.start();
+            lines.push(json!({"op": "start"}));
+            let calls = 1 + rng.below(6);
+            for c in 0..calls {
+                let last = c + 1 == calls;
+                let now = emb.inv(*rt.sim_time()).unwrap_or(0);
+                match if last { 2 } else { rng.below(3) } {
+                    0 => {
+                        let k = 1 + rng.below(9);
+                        lines.push(json!({"op": "step_n", "n": k}));
+                        rt.dispatch_n_events(k as usize);
+                    }
+                    1 => {
+                        let t = now + rng.below(7);
+                        lines.push(json!({"op": "step_until", "t": t}));
+                        rt.dispatch_events_until(st(emb.map(t)));
+                    }
+                    _ => {
+                        lines.push(json!({"op": "step_all"}));
+                        rt.dispatch_all();
+                    }
+                }
+                lines.extend(SCRIPT.with(|sc| std::mem::take(&mut sc.borrow_mut().rec_log)));
+                lines.push(json!({"op": "end_step", "dispatched": rt.num_events_dispatched(), "remaining": rt.num_events_remaining(),
+                                  "sim_time": emb.inv(*rt.sim_time()).map(|x| x as i64).unwrap_or(-1)}));
+                if !last && rng.chance(1, 2) {
+                    ext(&mut rt, &mut rng, &mut lines);
+                }
+            }
+            let fin = rt.finish();
+            match fin {
+                Ok((_, t, p)) => {
+                    let rem: Vec<Value> = p.remaining.iter().map(|(e, t)| json!([e.0, emb.inv(**t).map(|x| x as i64).unwrap_or(-1)])).collect();
+                    lines.push(json!({"op": "finish", "time": emb.inv(*t).map(|x| x as i64).unwrap_or(-1), "event_count": p.event_count, "remaining": rem}));
+                }
+                Err(_) => lines.push(json!({"op": "finish", "time": -1, "event_count": 0, "remaining": []})),
+            }
+        }));
+        s.behaviours += 1;
+        if res.is_err() {
+            s.mismatch(json!({"field": "a runtime call panicked in a random program", "run": r, "seed": seed, "lines_so_far": lines.len()}));
+        }
+        if let Some(f) = take_fail() {
+            s.mismatch(json!({"field": f["field"], "detail": f, "run": r, "seed": seed}));
+        }
+        for l in &lines {
+            writeln!(out, "{l}").unwrap();
+        }
+    }
+    out.flush().unwrap();
     s.print();
 }
